@@ -1608,6 +1608,18 @@ impl Hasher {
     }
 }
 
+// Verification hook (off unless built with --cfg blake3_team_blake3_verif): `update` with the
+// scripted `Join` implementation of `join::verif`, plus access to its decision function.
+#[cfg(all(blake3_team_blake3_verif, feature = "std"))]
+impl Hasher {
+    pub fn verif_update_scripted(&mut self, input: &[u8]) -> &mut Self {
+        self.update_with_join::<join::verif::ScriptedJoin>(input)
+    }
+}
+
+#[cfg(all(blake3_team_blake3_verif, feature = "std"))]
+pub use join::verif::set_decider as verif_set_join_decider;
+
 // Don't derive(Debug), because the state may be secret.
 impl fmt::Debug for Hasher {
     fn fmt(&self, f: &mut fmt::Formatter) -> fmt::Result {
